@@ -31,6 +31,7 @@ MODES = {
     'C11': ['debruijn', 'interner', 'named'],
     'C16': ['shrinker', 'proptest'],
     'C18': ['applyparam'],
+    'C19': ['txsim'],
     'C09': ['determinism'],
     'C20': ['malformed'],
 }
